@@ -552,7 +552,12 @@ class Interp(object):
                     if v:
                         return v
                 return v
-            vals = [self.tobool(self.ev(x, env)) for x in e.values]
+            vals = []
+            for x in e.values:          # python's short circuit: operands after a concretely false one are not evaluated
+                v = self.tobool(self.ev(x, env))
+                vals.append(v)
+                if not isinstance(v, z3.BoolRef) and not v:
+                    break
             if any(isinstance(v, z3.BoolRef) for v in vals):
                 return z3.And(*[v if isinstance(v, z3.BoolRef) else z3.BoolVal(bool(v)) for v in vals])
             v = True
@@ -637,6 +642,21 @@ class Interp(object):
             if key in want_targets:
                 found.add(key)
                 self.stmt(st, env)
+            elif isinstance(st, ast.If):
+                # a wanted assignment/call wrapped into a conditional (`if <reuse condition>: self._execute = ... else: ...`):
+                # interpret the whole conditional - its test must evaluate concretely in the first-bind environment
+                inner = set()
+                for sub in ast.walk(st):
+                    if isinstance(sub, ast.Assign) and len(sub.targets) == 1:
+                        t = sub.targets[0]
+                        inner.add(t.id if isinstance(t, ast.Name) else (t.attr if isinstance(t, ast.Attribute) else None))
+                    elif isinstance(sub, ast.Expr) and isinstance(sub.value, ast.Call):
+                        f = sub.value.func
+                        inner.add(f.id if isinstance(f, ast.Name) else getattr(f, 'attr', None))
+                hit = inner & (set(want_targets) - found)
+                if hit:
+                    found |= hit
+                    self.stmt(st, env)
         missing = set(want_targets) - found
         if missing:
             raise Unsupported('fragment statements not found in %s: %s' % (fn.__qualname__, sorted(missing)))
